@@ -114,3 +114,11 @@ Definition sched_overshoot : list nat :=
 (* nine concurrent Incs: eight read total early (<= 8), the ninth pushes value to 8, the eight see value >= their total *)
 Definition sched_undershoot : list nat :=
   [0;0; 1;1; 2;2; 3;3; 4;4; 5;5; 6;6; 7;7;  8;8;8;8;  0;1;2;3;4;5;6;7]%nat.
+
+(* the states after each step of a schedule (what the [sched] runner op prints from):
+   element n is [runr] of the first n+1 schedule entries (Round8Proofs.runr_trace_nth) *)
+Fixpoint runr_trace (sched : list nat) (s : str) : list str :=
+  match sched with
+  | [] => []
+  | i :: r => let s' := stepr_skip s i in s' :: runr_trace r s'
+  end.
